@@ -288,12 +288,9 @@ def norm_where(o):
 
 
 def _wit_outside(cons, vrl):
-    for extra in ([lt(vrl, 20)], [gt(vrl, 16384)]):
-        w = SegmentModel.witness(cons, extra)
-        if w:
-            return w
     b = LinExpr.sym("__odd")
-    return SegmentModel.witness(cons, [eq(vrl, 2 * b + 1)])
+    return SegmentModel.witness(cons, [lt(vrl, 20)]) | SegmentModel.witness(cons, [gt(vrl, 16384)]) \
+        | SegmentModel.witness(cons, [eq(vrl, 2 * b + 1)])
 
 
 # ---------------------------------------------------------------------------------------------------- R01.5
